@@ -168,6 +168,37 @@ example : (feedEvents true byteDec {} [.data [49, 10, 50], .lost, .made, .data [
 example : (feedEvents false byteDec {} [.data [49, 10, 50], .lost, .made, .data [51, 10], .lost, .data [52]])
     = ({ buffer := [52] }, [[Char.ofNat 49], [Char.ofNat 51]]) := by decide +kernel
 
+/-! ## Part 1c — the TCP reader thread (`TCPTransport.run`, gateway_tcp.py) -/
+
+/-- THE READER LOOP ADDS NOTHING AND LOSES NOTHING.  Whatever the successive `recv(120)` calls
+    return — pieces of any size, empty reads, iterations in which the socket was not readable —
+    the lines delivered are the complete segments of the bytes the socket delivered, in order,
+    and the residue is their unterminated tail. -/
+theorem tcp_reader_loop (dec : Bytes → Str) (reads : List (Option Bytes)) :
+    tcpReader dec {} reads = dataReceived dec {} (readBytes reads) :=
+  tcpReader_eq dec {} reads (by simp)
+
+theorem tcp_reader_any_two (dec : Bytes → Str) (r₁ r₂ : List (Option Bytes))
+    (h : readBytes r₁ = readBytes r₂) : tcpReader dec {} r₁ = tcpReader dec {} r₂ := by
+  rw [tcp_reader_loop, tcp_reader_loop, h]
+
+/-- the reader loop on the greedy `recv(n)` pieces of a stream is one `data_received` of the stream -/
+theorem tcp_reader_chunks (dec : Bytes → Str) (n : Nat) (stream : Bytes) :
+    tcpReader dec {} ((chunksOf n stream).map some) = dataReceived dec {} stream := by
+  rw [tcp_reader_loop]
+  congr 1
+  have h : ∀ cs : List Bytes, readBytes (cs.map some) = cs.flatten := by
+    intro cs
+    induction cs with
+    | nil => rfl
+    | cons c cs ih => simp [readBytes, ih]
+  rw [h, chunksOf_flatten]
+
+/-- non-vacuity, and the case a "skip blank reads" shortcut gets wrong: the terminator arriving in
+    a read of its own (between an idle iteration and an empty read) completes the line -/
+example : tcpReader byteDec {} [some [49, 59], none, some [10], some [], some [50]]
+    = ({ buffer := [50] }, [[Char.ofNat 49, Char.ofNat 59]]) := by decide +kernel
+
 /-! ## Part 2 — the two pumps -/
 
 /-- the inline pump of this file is the gateway model's own `run` on the lines -/
